@@ -404,7 +404,12 @@ func EncodeSW(c *runner.Ctx, x Encodable, slack int) *Enc {
 			e.Skip = true
 			return
 		}
-		sw := bits.NewFixedSliceWriter(int(s) + slack)
+		// a caller-owned buffer that is not zeroed (a recycled one): every byte of the box must be written
+		buf := make([]byte, int(s)+slack)
+		for i := range buf {
+			buf[i] = 0xA5
+		}
+		sw := bits.NewFixedSliceWriterFromSlice(buf)
 		e.Err = x.EncodeSW(sw)
 		if e.Err == nil {
 			e.Err = sw.AccError()
